@@ -218,6 +218,28 @@ def run(res, tier, seed):
             if x.is_tautology: res.count("flag_tautology")
             if x.is_contradiction: res.count("flag_contradiction")
             fcases.append((lambda it, x=x: f"({dump(x, it)}, {b(bool(x.is_tautology))}, {b(bool(x.is_contradiction))}, ({z(x.equation_bounds[0])}, {z(x.equation_bounds[1])}))", (ast, x.id)))
+    # sums and thresholds beyond 2^53 (well inside 64 bits): a partial interpretation fixes the large leaf, the small ones stay open
+    brng = random.Random(seed * 7951 + 6)
+    for _ in range(30 if tier == "quick" else 300):
+        Mb = brng.choice([2 ** 53, 2 ** 53, 2 ** 60, 3 * 2 ** 59])
+        kids = [{"k": "var", "id": "x", "b": [0, Mb + 16]}, {"k": "var", "id": "y", "b": [0, 1]}] + ([{"k": "str", "id": "z"}] if brng.random() < 0.5 else [])
+        thr = Mb + brng.randint(0, 6)
+        node = brng.choice([{"k": "AtLeast", "v": thr, "s": None, "ch": kids, "id": "A"}, {"k": "AtMost", "v": thr, "ch": kids, "id": "A"},
+                            {"k": "AtLeast", "v": -thr, "s": -1, "ch": kids, "id": "A"}])
+        ast = node if brng.random() < 0.6 else {"k": brng.choice(["Any", "All"]), "ch": [node, {"k": "str", "id": "w"}], "id": "T"}
+        try:
+            m = build(ast)
+            if m.errors():
+                continue
+        except Exception:
+            continue
+        d = {"x": (Mb + brng.randint(-2, 8),) * 2}
+        if brng.random() < 0.4:
+            d["y"] = (brng.randint(0, 1),) * 2
+        res.count("beyond_2^53")
+        bad = oracle_case(res, ast, d, brng, 8)
+        if bad:
+            res.violation("oracle", "evaluate_propositions returned bounds a completion contradicts: " + bad["problem"] + f" on {m!r}", bad)
     n, failing, errs = run_case_shards("C06", "evalprops", "", "interp * prop * list (ident * (Z * Z)) * (Z * Z)", "check_evalprops", cases)
     n2, failing2, errs2 = run_case_shards("C06", "flags", "", "prop * bool * bool * (Z * Z)", "check_flags", fcases)
     res.corr_cases += n + n2; res.evaluations += n + n2
